@@ -191,6 +191,8 @@ def make_dist(spec):
         d.set_rv_names(spec['names'])
     if spec['base'] != 'linear':
         d.set_base(spec['base'])
+    if spec.get('via_copy'):
+        d = d.copy()
     return d
 
 
